@@ -49,6 +49,18 @@ claim("C16",
       "Trusted: Hill's equations as written in the checker; the term algebra.",
       "canonical term algebra (ODE + initial value obligations) + ast pattern rules on the sequencing", "§3 C16")
 
+claim("C03",
+      "Clause-level: the six-scale graph is a tree with exactly one offset provider per link, the exact constants "
+      "(32.184, 19.0, tabulated TAI-UTC / UT1-UTC, the two-term TDB-TT series) and the add/subtract orientation in "
+      "offset(); one invariant key for the five comparisons and the hash; direction symmetry of DateRange "
+      "(membership, iteration, length); exhaustive three-way missing-data policy with an all-zero nine-field fallback; "
+      "immutability (slots, raising __setattr__, slot writes only at construction) and scale-carrying arithmetic; the "
+      "constructor's carry/wrap and _convert_to_scale as exact inverses; the EOP day chosen by the instant; IERS day "
+      "lookup and leap-second table.",
+      "Not decided: microsecond bounds of round trips, UT1/TDB accuracy, behaviour inside leap-second windows. Several "
+      "R03.5/R03.6/R03.8 instances are frozen-shape rules on 1-3 line accessors (any edit of those lines is reported).",
+      "graph/table agreement + ast pattern rules + data-dependence over reaching definitions", "§3 C03")
+
 NOT_YET = "check not built yet in this revision; rules designed in DESIGN.md §3 — claimed once its checker is committed"
 
 ALL = [f"C{i:02d}" for i in range(1, 21)]
